@@ -1,29 +1,48 @@
-/- Line-protocol engine for C19 (replication round). See go/overlay/internal/verifharness/c19. -/
+/- Line-protocol engine for C19 (replication round). See go/overlay/internal/verifharness/c19.
+
+   acl  <last> <locals> <remotes>                 the walk alone (diffACLType through the shim)
+   cfg  <last> <locals> <remotes>                 the walk alone (diffConfigEntries)
+   racl <kind> <last> <remoteIndex> <locals> <remotes>   one real replicateACLType round
+   rcfg <last> <remoteIndex> <locals> <remotes>          one real replicateConfig round
+
+   ACL item:    id;mod;hash;val;size      config item: kind;name;mod;hash;val
+   A round answers  ret=<returned index> w=<Raft applies in order> final=<id;val …>  where an apply
+   is `D~id+id+…` (one deletion batch) or `U~id+id+…` (one upsert batch). -/
 import CV.Repl
 namespace CV.Engine.C19
 open CV CV.Repl
 
 def parseAclItem (tok : String) : Option (Item Bytes Bytes) :=
   match tok.splitOn ";" with
-  | [i, m, h, v] => do
-      let id ← decB i; let mod ← m.toNat?; let hash ← decB h; let val ← v.toNat?
-      pure ⟨id, mod, hash, val⟩
+  | [i, m, h, v, z] => do
+      let id ← decB i; let mod ← m.toNat?; let hash ← decB h; let val ← v.toNat?; let size ← z.toNat?
+      pure ⟨id, mod, hash, val, size⟩
   | _ => none
 
 def parseCfgItem (tok : String) : Option (Item CKey Nat) :=
   match tok.splitOn ";" with
   | [k, n, m, h, v] => do
       let kind ← decB k; let name ← decB n; let mod ← m.toNat?; let hash ← h.toNat?; let val ← v.toNat?
-      pure ⟨(kind, name), mod, hash, val⟩
+      pure ⟨(kind, name), mod, hash, val, 1⟩
   | _ => none
 
 def encIds (l : List Bytes) : String := encList (l.map encB)
 
 def finalStr (xs : List (Bytes × Nat)) : String :=
-  let items : List (Item Bytes Unit) := xs.map fun (k, v) => ⟨k, 0, (), v⟩
+  let items : List (Item Bytes Unit) := xs.map fun (k, v) => ⟨k, 0, (), v, 1⟩
   encList ((sortBy bytesLt items).map fun x => encB x.id ++ ";" ++ toString x.val)
 
 def cfgId (k : CKey) : Bytes := k.1 ++ [47] ++ k.2
+
+def opStr {κ η : Type} (idOf : κ → Bytes) : Op κ η → String
+  | .del ks => "D~" ++ "+".intercalate (ks.map fun k => encB (idOf k))
+  | .ups xs => "U~" ++ "+".intercalate (xs.map fun x => encB (idOf x.id))
+
+def roundStr {κ η : Type} [DecidableEq κ] (R : Rnd κ η) (idOf : κ → Bytes) (last ridx : Nat)
+    (l r : List (Item κ η)) : String :=
+  let ops := roundOps R last ridx l r
+  let fin := finalStr ((roundFinal R last ridx l r).map fun x => (idOf x.id, x.val))
+  s!"ret={roundRet last ridx} w={encList (ops.map (opStr idOf))} final={fin}"
 
 def step (_ : Unit) (toks : List String) : Unit × String :=
   match toks with
@@ -34,16 +53,24 @@ def step (_ : Unit) (toks : List String) : Unit × String :=
       let nl := (l.filter fun x => aclCfg.skip x.id).length
       let nr := (r.filter fun x => aclCfg.skip x.id).length
       let fin := if nl + nr > 0 then "skip"
-                 else finalStr ((round aclCfg last l r).map fun x => (x.id, x.val))
+                 else finalStr ((roundFinal aclRnd last last l r).map fun x => (x.id, x.val))
       ((), s!"d={encIds d} u={encIds u} ls={nl} rs={nr} final={fin}")
     | _, _, _ => ((), "bad-op")
   | ["cfg", last, ls, rs] =>
     match last.toNat?, (decList ls).mapM parseCfgItem, (decList rs).mapM parseCfgItem with
     | some last, some l, some r =>
       let (d, u) := diff cfgCfg last (sortBy cfgCfg.lt l) (sortBy cfgCfg.lt r)
-      let fin := finalStr ((round cfgCfg last l r).map fun x => (cfgId x.id, x.val))
+      let fin := finalStr ((roundFinal cfgRnd last last l r).map fun x => (cfgId x.id, x.val))
       ((), s!"d={encIds (d.map cfgId)} u={encIds (u.map cfgId)} final={fin}")
     | _, _, _ => ((), "bad-op")
+  | ["racl", _kind, last, ridx, ls, rs] =>
+    match last.toNat?, ridx.toNat?, (decList ls).mapM parseAclItem, (decList rs).mapM parseAclItem with
+    | some last, some ridx, some l, some r => ((), roundStr aclRnd id last ridx l r)
+    | _, _, _, _ => ((), "bad-op")
+  | ["rcfg", last, ridx, ls, rs] =>
+    match last.toNat?, ridx.toNat?, (decList ls).mapM parseCfgItem, (decList rs).mapM parseCfgItem with
+    | some last, some ridx, some l, some r => ((), roundStr cfgRnd cfgId last ridx l r)
+    | _, _, _, _ => ((), "bad-op")
   | _ => ((), "bad-op")
 
 def engine : Engine := { State := Unit, init := (), step := step }
